@@ -34,4 +34,20 @@ def run(P, R, L):
     K.grd11_reopen_offset(P, R, L)
     R.clause("GRD-12", "a WAL / manifest is re-opened for appending only if the reader consumed it completely (no append after a torn tail)")
     K.grd12_reuse_only_complete_logs(P, R, L)
+    # everywhere else a log is created fresh (truncating): a new WAL / a new manifest never inherits stale bytes
+    allowed = {"db::DB::recover_wal_records", "versioning::version_set::VersionSet::maybe_reuse_manifest"}
+    n = 0
+    for c in P.callers_of("logs::LogWriter::new"):
+        if c.body.is_cleanup(c.bb) or len(c.args) < 3:
+            continue
+        n += 1
+        a = c.args[2]
+        val = a.get("val") if a["k"] == "const" else "nonconst"
+        if c.body.path in allowed:
+            ok = True
+        else:
+            ok = val == "0"
+        R.check("OWN-7", "%s|log-create-mode" % c.body.path, ok, c.where(),
+                "outside the two reuse paths every LogWriter::new truncates (is_appending = false)", "is_appending=%s" % val)
+    R.floor("OWN-7", "LogWriter::new call sites", n, 5)
     R.not_decided += ["offset arithmetic of LogWriter::new(is_appending = true)", "records appended inside a torn block"]
